@@ -10,7 +10,9 @@ LEVEL = 'exploration'
 RULE = ('round trip constant -> C text -> compiled bits. Each module carries hundreds of constants in every position a '
         'constant may occur: t.const returned directly, f32/f64.const observed through iNN.reinterpret inside wasm, global '
         'initialisers (read by a getter function and from the instance struct), data-segment offsets (observed by where the '
-        'bytes land) and element-segment offsets (observed by which table slot holds the function). Values: the boundary '
+        'bytes land) and element-segment offsets (observed by which table slot holds the function), and bodies with 2-6 constants '
+        'stored to memory in which each constant is equal or related to its predecessor (f32 x / f64 (double)x in both orders, '
+        'i32 v / i64 v, the same literal twice). Values: the boundary '
         'pools (all NaN classes incl. signalling / payload-in-low-bits / payload-in-high-bits, -0, infinities, subnormals, '
         'extremes, INT_MIN, decimal round-trip hard cases) and seeded random bit patterns. Non-trivial = NaN/inf/-0/'
         'subnormal/extreme-exponent float, a float needing >= 8 (f32) / >= 16 (f64) significant decimal digits, or an '
@@ -75,6 +77,49 @@ def make_consts(ch, params):
                 script.append(('glob', 0, g))
         m.exports.append((b'c%d' % e, 'func', len(m.funcs) - 1))
         script.append(('call', 0, e, []))
+        e += 1
+    # several constants in ONE body, each stored to its own memory cell: a value next to an equal or related value of another type
+    # (f32 x then f64 (double)x and the reverse, i32 v then i64 v, the same literal twice), so that whatever the translator keeps
+    # from one literal to the next within a function (formatting buffers, memoised text) meets a neighbour that needs other digits
+    import struct as _st
+
+    def related(t, v):
+        k = ch.below(6)
+        if k == 0:
+            return t, v
+        if t == F32 and k < 4:
+            x = _st.unpack('<f', _st.pack('<I', v))[0]
+            return F64, _st.unpack('<Q', _st.pack('<d', x))[0]
+        if t == F64 and k < 4:
+            x = _st.unpack('<d', _st.pack('<Q', v))[0]
+            try:
+                return F32, _st.unpack('<I', _st.pack('<f', x))[0]
+            except OverflowError:
+                return F32, 0x7f7fffff
+        if t == I32 and k < 4:
+            return I64, v if k < 3 else (v | 0xffffffff00000000 if v >> 31 else v)
+        if t == I64 and k < 4:
+            return I32, v & 0xffffffff
+        t2 = ch.pick((I32, I64, F32, F64))
+        return t2, pools.draw_const(ch, t2)
+    STORE_ALIGN = {I32: 2, I64: 3, F32: 2, F64: 3}
+    for j in range(max(n // 12, 4)):
+        base = 20000 + j * 64
+        body = []
+        t, v = ch.pick((F32, F64, F32, I32, I64)), None
+        v = pools.draw_const(ch, t)
+        if t in (F32, F64) and ch.below(2):
+            # values whose short decimal text is not exact
+            v = ch.pick((0x3dcccccd, 0x3eaaaaab, 0x7f7fffff, 0x00000001, 0xc0490fdb, 0x3f99999a) if t == F32 else
+                        (0x3fb999999999999a, 0x3fd5555555555555, 0x7fefffffffffffff, 0x0000000000000001, 0x400921fb54442d18))
+        for i in range(2 + ch.below(5)):
+            keys.append((t, v))
+            body += [('i32.const', base + 8 * i), ('%s.const' % t, v), ('%s.store' % t, STORE_ALIGN[t], 0)]
+            t, v = related(t, v)
+        m.funcs.append(Func(m.type_index((), ()), [], body))
+        m.exports.append((b'c%d' % e, 'func', len(m.funcs) - 1))
+        script.append(('call', 0, e, []))
+        script.append(('dump', 0, base, 56))
         e += 1
     # segment offsets: i32 constants within range, written with their full LEB form
     nseg = 1 + ch.below(6)
